@@ -595,13 +595,14 @@ func TestVerifC15Directed(t *testing.T) {
 	root := vg.NewRand(vg.Seed() ^ 0xc15d)
 	cs := vg.NewCases("C15", "c15_directed", "TM.C15.Exec")
 	k := 0
-	run := func(kind string, f func(c *c15Case, r *vg.Rand)) {
+	var run func(kind string, f func(c *c15Case, r *vg.Rand))
+	runLim := func(kind string, hl, tl int64, f func(c *c15Case, r *vg.Rand)) {
 		id := cs.NextID()
 		k++
 		if !cs.Want(id) {
 			return
 		}
-		c, err := c15NewCase(0, 0)
+		c, err := c15NewCase(hl, tl)
 		if err != nil {
 			t.Fatal(err)
 		}
@@ -619,6 +620,7 @@ func TestVerifC15Directed(t *testing.T) {
 		}
 		c.emit(cs, id, kind, true)
 	}
+	run = func(kind string, f func(c *c15Case, r *vg.Rand)) { runLim(kind, 0, 0, f) }
 	// F8: a tail of 1..7 bytes, a later acknowledged marker, a second restart
 	for tail := int64(1); tail <= 9; tail++ {
 		tail := tail
@@ -691,6 +693,71 @@ func TestVerifC15Directed(t *testing.T) {
 			c.search(3, true)
 		})
 	}
+	// Readers that get past an unrepaired partial record (known-finding class 9 leaves it in
+	// place): the reader opened at the oldest file stops there, but the records appended behind
+	// it and in the later files -- among them the EndHeightMessage{0} BaseWAL.OnStart writes into
+	// an empty head -- were written and are on disk.  A reader opened at a later index, or at the
+	// oldest file once checkTotalSizeLimit has removed the file with the partial record, returns
+	// them: that is no clause 2 failure (the monitor's journal must not be cut down to what the
+	// stopped reader saw).  (Appended at the end: the ids of the cases above stay as they were.)
+	for _, cu := range []bool{false, true} {
+		cu := cu
+		run(fmt.Sprintf("behind-unrepaired-partial/read-later-index/%v", cu), func(c *c15Case, r *vg.Rand) {
+			c.restart(0, 1, true)
+			c.write(c15EndHeight(1), true)
+			c.write(c15RandMsg(r, 2), false)
+			c.restart(5, 6, cu) // partial record stays (status 1 / 3)
+			c.write(c15RandMsg(r, 6), true)
+			c.rotate() // file 0 = E0 E1 <partial> A
+			c.write(c15RandMsg(r, 6), true)
+			c.restart(1<<30, 7, true) // the reader from file 0 stops at the partial record
+			c.read(1)                 // ... the head holds the synced record
+			c.rotate()
+			c.restart(0, 7, true) // empty head: OnStart writes EndHeightMessage{0}
+			c.read(2)
+			c.search(0, true)
+		})
+	}
+	runLim("behind-unrepaired-partial/pruned", 0, 250, func(c *c15Case, r *vg.Rand) {
+		c.restart(0, 1, true)
+		c.write(c15EndHeight(1), true)
+		c.write(c15RandMsg(r, 2), false)
+		c.restart(5, 6, true)
+		c.write(c15RandMsg(r, 6), true)
+		c.rotate()
+		c.write(c15RandMsg(r, 6), true)
+		c.write(c15EndHeight(6), true)
+		c.restart(1<<30, 7, true) // marker 6 found in the head, replay to EOF: status 0, no repair
+		c.rotate()
+		c.restart(0, 7, true) // EndHeightMessage{0} into the empty head, unseen by the stopped reader
+		for i := 0; i < 3; i++ {
+			c.write(c15BlockPart(7, r.Bytes(32), r.Bytes(40)), true)
+		}
+		c.checkTotal()            // removes file 0 with the partial record (and file 1 if still over the limit)
+		c.restart(1<<30, 7, true) // everything left is readable again
+		c.search(6, true)
+		c.search(0, true)
+	})
+	// two unrepaired partial records (one rotated away, one in the head), then a restart whose
+	// catch-up runs into the one in the head: repairWalFile cuts the head there (the synced
+	// record behind it is lost: class 9), while the reader from file 0 still stops in file 0
+	run("behind-unrepaired-partial/repair-cuts-head", func(c *c15Case, r *vg.Rand) {
+		c.restart(0, 1, true)
+		c.write(c15EndHeight(1), true)
+		c.write(c15RandMsg(r, 2), false)
+		c.restart(5, 6, true)
+		c.write(c15RandMsg(r, 6), true)
+		c.rotate()
+		c.write(c15EndHeight(6), true)
+		c.write(c15RandMsg(r, 7), false)
+		c.restart(5, 9, true) // head = E6 <partial>; no marker 8: status 1, no repair
+		c.write(c15RandMsg(r, 9), true)
+		c.restart(1<<30, 7, true) // marker 6 found, replay runs into the partial record: repair
+		c.read(1)
+		c.write(c15RandMsg(r, 7), true)
+		c.read(1)
+		c.restart(1<<30, 7, true)
+	})
 	if err := cs.Write(); err != nil {
 		t.Fatal(err)
 	}
